@@ -30,7 +30,7 @@ def analyse(ck, prog=None):
     body = prog.one(r"public_batch::circuit::circuit_logic::build_public_batch_constraints$", AGG)
     ck.saw(body)
     # helpers of the aggregator crate are expanded in place (an extracted helper is the same circuit); gadgets of the common crate stay atomic
-    ev = T.Evaluator(prog, inline=lambda p: (p.startswith(AGG + "::") or p.startswith("<" + AGG + "::")) and "{closure" not in p)
+    ev = T.Evaluator(prog, inline=lambda p: (p.startswith(AGG + "::") or p.startswith("<" + AGG + "::")) and "{closure" not in p, names=False)
     fr = ev.frame(body)
     effs = fr.effects()
     for e in effs:
